@@ -104,6 +104,17 @@ CLAIMED = {
         "Trusted: see evidence.trusted_base; datetime.utcfromtimestamp/strftime/strptime = proleptic Gregorian arithmetic with "
         "fixed-width fields (Pure/Calendar.v), tied by correspondence; Property setters and dimension setters not modelled.",
         "DESIGN.md section 5 C19", TECH),
+    "C13": (
+        "Coq theorems on rose trees for the queue-and-level-counter algorithm of util/find.py (the model runs that algorithm on the "
+        "tree materialised from the store): from a Section/Source root it returns exactly the root and the next `limit` levels, "
+        "from a File/Block root exactly levels 1..limit (nothing for 0), filtered, each node once, in breadth-first order; a limit "
+        "beyond the depth gives the whole subtree; the general queue invariant for every level, fuel and limit. parent / "
+        "parent_source / parent_block / referring_* are modelled (breadth-first / depth-first scans with the code's membership "
+        "tests) and tied by correspondence AND by a model-free oracle (plain recursion over containers) applied to the "
+        "implementation's answers on trees with repeated names, all limits, filters, handles from creation / lookup / reopen.",
+        "Trusted: see evidence.trusted_base; no theorem yet for parent/referring (correspondence + oracle only); trees deeper than "
+        "48 levels are outside the model.",
+        "DESIGN.md section 5 C13", TECH),
 }
 
 PENDING_REASON = ("check not built yet in this revision (work in progress: the property is meant to be decided by Coq "
